@@ -3,9 +3,9 @@ SPECIFICATION Spec
 CONSTANTS
   Nodes = {1, 2, 3}
   Seqs = {1, 2, 3}
-  KindSet = {"rw", "fsck", "clear"}
-  RwPolls = {0, 1}
-  FsckPolls = {0, 1}
+  KindSet = {"rw"}
+  RwPolls = {0}
+  FsckPolls = {0}
   MinIval = 1
   Upd = 3
   IvalSet = {1}
